@@ -2,7 +2,7 @@
 from .. import AnalysisBroken
 from ..nnabs import MOD, MODES
 from ..terms import head, show, strip, strip_all
-from ._nn import (check_comb_gen, check_index_builder, check_role_forwarding, check_site_ext, engine_sites, get_nn, resolve_callee, wh, add_implicit_guards)
+from ._nn import (check_engines_stateless, check_comb_gen, check_index_builder, check_role_forwarding, check_site_ext, engine_sites, get_nn, resolve_callee, wh, add_implicit_guards)
 
 CLAIMED = True
 LEVEL = "other"
@@ -36,14 +36,11 @@ def run(r):
     rep.floor("C01-LNE", 5)
     check_index_builder(r, "C01-IDX")
     rep.floor("C01-IDX", 4)
+    check_engines_stateless(r, "C01-STATE", entries=("symdel", "nearest_neighbor", "SymdelDB.__init__"))
     # self-mode sites
     n = 0
     for mode in [m for m in MODES if m[0] == "none"]:
         sites = [x for x in engine_sites(nn, mode) if x[0] == "symdel-self"]
-        for label, st, sa, sb, policy, eq in sites:
-            rep.analysed(st.q)
-            check_site_ext(r, "C01", nn, st, mode, sa, sb, "never", eq, f"site{st.line}")
-            n += 1
         # both orientations, same guards and value, into a set
         ok_pair = len(sites) == 2 and strip(sites[0][1].a) == strip(sites[1][1].b) and strip(sites[0][1].b) == strip(sites[1][1].a) and strip(sites[0][1].d) == strip(sites[1][1].d) \
             and sites[0][1].guards == sites[1][1].guards
@@ -64,6 +61,11 @@ def run(r):
             ok_comb = it is not None and head(strip(it)) == "call" and strip(strip(it)[1]) == ("glob", "itertools.combinations")
             rep.ob("C01-FGA", MOD + "symdel", ok_comb, "every unordered pair of distinct positions sharing a variant is examined once (i != j by construction)", w,
                    expected="for i, j in combinations(values, 2)", found=show(it, 60), key=f"pairs {mode[1]}")
+        # typed acceptance analysis last: structural findings above take precedence over an untypable candidate generator
+        for label, st, sa, sb, policy, eq in sites:
+            rep.analysed(st.q)
+            check_site_ext(r, "C01", nn, st, mode, sa, sb, "never", eq, f"site{st.line}")
+            n += 1
     rep.require(n >= 4, f"C01: {n} self-mode site x mode instances, floor is 4")
 
 
